@@ -377,6 +377,10 @@ def run_seq_check(prop, tier, flags, plan, seed, design_ref, extra_assumptions=N
                         if matches(kf, prop, flag, reset['root'], reset['cfg'], stims):
                             hit = kf
                             break
+                    # a known finding is behaviour the as-is model (L1) predicts; an execution that L2 rejects AND that deviates
+                    # from L1 is something else happening in the same place, and is reported
+                    if hit and v['drift']:
+                        hit = None
                     if hit:
                         e = kf_hits.setdefault(hit['id'], [0, hit, None])
                         e[0] += 1
